@@ -17,6 +17,7 @@
 import MTVerif.Lemmas.Keys
 import MTVerif.Lemmas.ShrinkPerm
 import MTVerif.Lemmas.ModuleRender
+import MTVerif.Lemmas.LargeUnionPerm
 namespace MT.C14
 open MT
 
@@ -170,5 +171,28 @@ example : classBlocks [("ATypedDict", "class A: z"), ("ATypedDict", "class A: p"
         false_imp_iff, implies_true]
       decide +kernel
   exact ⟨(classBlocks_perm (List.Perm.swap _ _ _)).trans h2, h2⟩
+
+/-- C14, `RewriteLargeUnion`: a union of classes with more members than the limit is replaced by the same class whatever
+    the order of its members (which is the order the traces were read in), as long as distinct classes have distinct
+    `(module, qualname)` keys — also when multiple inheritance leaves several equally specific common ancestors. -/
+theorem large_union_order_independent (h : Hier) (n : Nat) (cs cs' : List ClassId) (hp : cs.Perm cs')
+    (hinj : ∀ a b, h.rank a = h.rank b → a = b) (hlen : n < cs.length) :
+    rewrite h (.largeUnion n) (.union (cs.map Ty.cls)) = rewrite h (.largeUnion n) (.union (cs'.map Ty.cls)) := by
+  have hlen' : n < cs'.length := by rw [← hp.length_eq]; exact hlen
+  simp only [rewrite, List.length_map, Nat.not_le.mpr hlen, Nat.not_le.mpr hlen', if_false]
+  exact largeUnionCollapse_classes_perm h cs cs' hp hinj
+
+/-- the multiple-inheritance table of the defect: P = 50, Q = 51, X(P, Q) = 52, Y(Q, P) = 53, Z(P, Q) = 54 -/
+def miHier : Hier where
+  mro c := match c with
+    | 52 => [52, 50, 51, objectC] | 53 => [53, 51, 50, objectC] | 54 => [54, 50, 51, objectC]
+    | c => [c, objectC]
+  bases c := match c with
+    | 52 => [50, 51] | 53 => [51, 50] | 54 => [50, 51]
+    | _ => [objectC]
+
+/-- non-vacuity: whichever member comes first, the union collapses to P (the old code answered Q for the second order) -/
+example : Ty.beq' (rewrite miHier (.largeUnion 2) (.union [.cls 52, .cls 53, .cls 54])) (.cls 50) = true ∧
+    Ty.beq' (rewrite miHier (.largeUnion 2) (.union [.cls 53, .cls 52, .cls 54])) (.cls 50) = true := by decide
 
 end MT.C14
